@@ -24,10 +24,11 @@ REQUIRED_PROBES = {"quick": ("multi_block", "both_directions", "chunked", "corru
                                 "corrupt_last", "nak_seen", "message_after_nak")}
 EVIDENCE = {
     "level": "exploration",
-    "rule": ("seeded sequences of single- and multi-block messages in both directions (one initiation at a time), seeded "
-             "chunking of the line byte stream (1 byte .. whole block, with gaps) and at most one corrupted byte in "
-             "header/data/checksum of a chosen block per message; non-trivial = chunked line or a corrupted block; "
-             "distinct = distinct (mode, chunk mode, per-message (direction, #blocks, corrupt class)) tuples"),
+    "rule": ("seeded sequences of single- and multi-block messages in both directions (one initiation at a time), "
+             "seeded chunking of the line byte stream (1 byte .. whole block, with gaps) and at most one corrupted "
+             "byte in header/data/checksum of a chosen block per message, threads descheduled just before a "
+             "synchronisation call; non-trivial = chunked line or a corrupted block; distinct = distinct (mode, "
+             "chunk mode, per-message (direction, #blocks, corrupt class)) tuples"),
     "real": ["secsgem.secsi.SecsIProtocol (both endpoints, or one against the reference peer)",
              "secsgem.common.SerialConnection", "secsgem.common.ProtocolDispatcher", "secsgem.common.ByteQueue"],
     "stub": ["serial.Serial on a simulated line", "reference E4 peer in a share of runs"],
